@@ -378,7 +378,7 @@ pub fn op_repair<K: Kern<D>, const D: usize>(
     seeds: Option<(u64, u64)>,
     gpmax: usize,
 ) -> bool {
-    let args = json!({"adv": advanced, "seeded": seeds.is_some(), "gpmax": gpmax});
+    let args = json!({"adv": advanced, "seeded": seeds.is_some(), "gpmax": gpmax, "profile": profile()});
     let r = tr.guard("repair", || {
         if advanced {
             let cfg = DelaunayRepairHeuristicConfig {
